@@ -8,8 +8,8 @@ for f in sorted(glob.glob('/verif/seeded/*/meta.json')):
     ver = ("suite %s; demo %s with / %s without"%(v['suite_with_change'],v['demo_with_change'].split(' ')[0],v['demo_without_change'].split(' ')[0])) if isinstance(v,dict) else str(v)
     rows.append("| %s | %s | %s | %s | %s |"%(m['id'],m['what_it_changes'].replace('|','/'),m['needs_to_manifest'].replace('|','/'),m['result_against_checks'].replace('|','/'),ver))
 seeded="| id | change (written by an independent sub-agent from the property text alone) | needs | result against the checks | my verification in a scratch worktree |\n|---|---|---|---|---|\n"+"\n".join(rows)
-n=len(rows); missed=sum(1 for r in rows if 'MISSED' in r or 'attributed to' in r or 'NOT DECIDED' in r); out=sum(1 for r in rows if 'NOT CAUGHT' in r)
-seeded+="\n\n%d seeded changes: %d caught by the quick tier at the first run, %d missed, undecided or mis-attributed at first and caught after the strengthening described in their row, %d not caught because they lie outside what the checks can soundly decide (see their rows and 9.9).\n"%(n,n-missed-out,missed,out)
+n=len(rows); missed=sum(1 for r in rows if 'MISSED' in r or 'attributed to' in r or 'NOT DECIDED' in r); out=sum(1 for r in rows if 'NOT CAUGHT' in r); opn=sum(1 for r in rows if '| OPEN - ' in r)
+seeded+="\n\n%d seeded changes: %d caught by the quick tier at the first run, %d missed, undecided or mis-attributed at first and caught after the strengthening described in their row, %d not caught because they lie outside what the checks can soundly decide (see their rows and 9.9), %d open (within reach, not yet strengthened: see its row).\n"%(n,n-missed-out-opn,missed,out,opn)
 mrows=[]
 for l in open('/verif/mutants/RESULTS.tsv'):
     p=l.rstrip('\n').split('\t')
